@@ -368,15 +368,20 @@ func postProcessProf(profile *pprof_proto.Profile) ([]*model.Function, []*profTr
 	}
 	for _, sample := range profile.Sample {
 		parentId := uint64(0)
-		for i := len(sample.Location) - 1; i >= 0; i-- {
-			loc := sample.Location[i]
+		// a sample without locations is kept as a single "n/a" frame, so that its weight
+		// (counted in values_agg) reaches the tree as well
+		depth := len(sample.Location)
+		if depth == 0 {
+			depth = 1
+		}
+		for i := depth - 1; i >= 0; i-- {
 			name := "n/a"
-			if len(loc.Line) > 0 {
-				name = loc.Line[0].Function.Name
+			if i < len(sample.Location) && len(sample.Location[i].Line) > 0 {
+				name = sample.Location[i].Line[0].Function.Name
 			}
 			fnId := city.CH64([]byte(name))
 			funcs[fnId] = name
-			nodeId := getNodeId(parentId, fnId, len(sample.Location)-i)
+			nodeId := getNodeId(parentId, fnId, depth-i)
 			node := tree[nodeId]
 			if node == nil {
 				values := make([]profTrieValue, len(profile.SampleType))
